@@ -20,29 +20,35 @@ Definition is_final (b : N) : bool := in_range 64 126 b.   (* 0x40-0x7e *)
 (* unknownCSIRe = ^\x1b\[[\x30-\x3f]*[\x20-\x2f]*[\x40-\x7e] ; returns the match length *)
 Definition unknown_csi (b : bytes) : option nat :=
   match b with
-  | 27 :: 91 :: r =>
-    let '(ps, r1) := span is_param r in
-    let '(is, r2) := span is_inter r1 in
-    match r2 with
-    | f :: _ => if is_final f then Some (2 + length ps + length is + 1)%nat else None
-    | [] => None
-    end
+  | b0 :: b1 :: r =>
+    if (b0 =? 27) && (b1 =? 91) then
+      let '(ps, r1) := span is_param r in
+      let '(is, r2) := span is_inter r1 in
+      match r2 with
+      | f :: _ => if is_final f then Some (2 + length ps + length is + 1)%nat else None
+      | [] => None
+      end
+    else None
   | _ => None
   end.
 
 (* incompleteCSIRe = ^\x1b\x1b?\[[\x30-\x3f]*[\x20-\x2f]*$ *)
 Definition incomplete_csi (b : bytes) : bool :=
   match b with
-  | 27 :: r =>
-    let r := match r with 27 :: r' => r' | _ => r end in
-    match r with
-    | 91 :: r0 =>
-      let '(_, r1) := span is_param r0 in
-      let '(_, r2) := span is_inter r1 in
-      match r2 with [] => true | _ => false end
-    | _ => false
-    end
-  | _ => false
+  | b0 :: r =>
+    if b0 =? 27 then
+      let r := match r with b1 :: r' => if b1 =? 27 then r' else r | [] => r end in
+      match r with
+      | c :: r0 =>
+        if c =? 91 then
+          let '(_, r1) := span is_param r0 in
+          let '(_, r2) := span is_inter r1 in
+          match r2 with [] => true | _ => false end
+        else false
+      | [] => false
+      end
+    else false
+  | [] => false
   end.
 
 (* detectSequence: longest prefix in extSequences (lengths tried in decreasing
@@ -136,12 +142,20 @@ Definition x10_len : nat := Z.to_nat Consts.c_mouseEventX10Len.
 Definition detect_mouse (b : bytes) : option (nat * msg) :=
   if len_ge b x10_len then
     match b with
-    | 27 :: 91 :: 77 :: cb :: cx :: cy :: _ => Some (x10_len, parse_x10 cb cx cy)
-    | 27 :: 91 :: 60 :: rest =>
-      match match_sgr rest with
-      | Some (d1, d2, d3, f, n) => Some ((n + 3)%nat, parse_sgr d1 d2 d3 f)
-      | None => None
-      end
+    | b0 :: b1 :: b2 :: rest =>
+      if (b0 =? 27) && (b1 =? 91) then
+        if b2 =? 77 then
+          match rest with
+          | cb :: cx :: cy :: _ => Some (x10_len, parse_x10 cb cx cy)
+          | _ => None
+          end
+        else if b2 =? 60 then
+          match match_sgr rest with
+          | Some (d1, d2, d3, f, n) => Some ((n + 3)%nat, parse_sgr d1 d2 d3 f)
+          | None => None
+          end
+        else None
+      else None
     | _ => None
     end
   else None.
@@ -153,9 +167,8 @@ Definition detect_tail (b : bytes) (more : bool) : dres :=
     let alt := b0 =? ESC in
     let i := if alt then 1%nat else 0%nat in
     let s := skipn i b in
-    match s with
-    | 0 :: _ => DMsg (i + 1) (MKey keyNUL [] alt false)
-    | _ =>
+    if (match s with s0 :: _ => s0 =? 0 | [] => false end) then DMsg (i + 1) (MKey keyNUL [] alt false)
+    else
       let '(runes, n) := rune_run (length s) alt s in
       let i' := (i + n)%nat in
       if more && negb (full_rune (skipn i' b)) then DMore
@@ -165,7 +178,6 @@ Definition detect_tail (b : bytes) (more : bool) : dres :=
              if alt && negb (len_ge b 2) then DMsg 1 (MKey KeyEscape [] false false)
              else DMsg 1 (MUnknownByte b0)
            end
-    end
   end.
 
 Definition detect_one_msg (b : bytes) (more : bool) : dres :=
